@@ -2,7 +2,7 @@
   C06 — Pool size limits hold after every insertion.  PARTIAL on the per-sender byte limit (known finding F3).
 -/
 import SV.TxCache.EvictPost
-import SV.GenProofs
+import SV.GenProofs.TxThresholds
 namespace SV.Props.C06
 open SV SV.TxCache
 
